@@ -10,6 +10,7 @@ PINS = [
  ("c18_insert", "g_insert_spec", "insert: false and nothing changes when the key is present (the original stays); otherwise the node itself is bound to its key and every other binding is unchanged"),
  ("c18_remove", "g_remove_spec", "remove returns the bound node (or None), unbinds exactly that key, len decreases accordingly"),
  ("c18_len", "g_len_spec", "len = number of bindings; is_empty iff none"),
+ ("c18_observed_order_is_tested", "order_okb_sound", "the hypothesis OrderOK of the view theorems below is not assumed of the implementation: every iteration order observed on the real container is tested with order_okb (duplicate-free, as long as the binding list, every key bound) before the model uses it, and the test is sound"),
  ("c18_iter_to_vec", "g_iter_perm", "to_vec/iter hand out exactly the bound nodes, each once, in the container's order"),
  ("c18_roots_leaves_orphans", "g_views_perm", "roots/leaves/orphans are exactly the members without incoming / without outgoing / without any edge"),
  ("c18_to_dot", "g_to_dot_perm", "to_dot: one node statement per member and one edge statement per edge obtained by iterating the members"),
